@@ -48,6 +48,9 @@ META = {
         "every creatable manual label converts with int()); (R9) the footnote transition is only attached where docutils "
         "allows a transition (not first, not next to another transition); (R10) SortFootnotes ranks a footnote by the "
         "position of its FIRST reference (list.index / first-wins table, never a last-wins table over autofootnote_refs). "
+        "(R11) UnreferencedFootnotesDetector reports every definition without back-references exactly once: one warning per "
+        "iteration on the unreferenced path, none on the referenced path, no early exit, and a deferred collection must "
+        "keep one entry per footnote. "
         "R4 also requires the sorter's re-ordering and the collector's gathering to be permutations of the registries "
         "(no filtered rebuild, no skipped entry); R6 also requires the duplicate test to cover both definition registries "
         "and everything it reads (registry entry, name) to be stored before the footnote body is rendered, where a nested "
@@ -1877,6 +1880,212 @@ def r10_first_reference_order(corpus: Corpus, rep: Report, tier: str):
     rep.expect_min("C11.R10", 1, "the rank expression of SortFootnotes._sort_key")
 
 
+# ---------------------------------------------------------------------------
+# R11 - every unreferenced definition is reported exactly once
+
+
+def _sub_of(e: ast.AST, var: str, key: str) -> bool:
+    return isinstance(e, ast.Subscript) and _is_name(e.value, var) and isinstance(e.slice, ast.Constant) and e.slice.value == key
+
+
+def _identifies(fi: FunctionInfo, e: ast.expr, var: str) -> bool | None:
+    """Does the value of ``e`` differ for two different footnotes ``var``?  True: the node itself, its id,
+    its ids or its (document-unique) name take part; False: ``var`` does not take part at all or only through
+    attributes many footnotes share; None: not decidable here."""
+    e = _deref(fi, e) if isinstance(e, ast.Name) and e.id != var else e
+    uses = [x for x in ast.walk(e) if _is_name(x, var)]
+    if not uses:
+        return False
+    ok = False
+    for x in uses:
+        p_ = parent(x)
+        if _sub_of(p_, var, "names") or _sub_of(p_, var, "ids"):
+            ok = True
+        elif isinstance(p_, ast.Subscript) and p_.value is x:
+            continue  # another attribute of the node (backrefs, dupnames, auto ...): shared by many footnotes
+        elif isinstance(p_, ast.Attribute):
+            return None  # node.line, node.source ...: not known to be unique
+        else:
+            ok = True  # the node object itself (dict key, tuple member, id(node))
+    return ok
+
+
+def _emissions_in(fi: FunctionInfo, root: ast.AST) -> list[ast.Call]:
+    """create_warning calls (or calls of a helper that issues exactly one) below ``root``."""
+    out = []
+    for n in ast.walk(root):
+        if not isinstance(n, ast.Call):
+            continue
+        d = dotted(n.func) or ""
+        if d.rsplit(".", 1)[-1] == "create_warning":
+            out.append(n)
+        elif isinstance(n.func, ast.Name) or (isinstance(n.func, ast.Attribute) and _is_name(n.func.value, "self")):
+            h = _resolve_helper(fi, n)
+            if h is not None and not h.is_lambda and h.module is fi.module:
+                inner = [c for c in h.local_nodes() if isinstance(c, ast.Call) and (dotted(c.func) or "").rsplit(".", 1)[-1] == "create_warning"]
+                if inner:
+                    hev = Events(h)
+                    for c in inner:
+                        hev.add("w", c)
+                    cnt = hev.count("w", ENTRY)
+                    if cnt != {1}:
+                        raise Unsupported(f"{fi.module.site(n)}: helper {h.qualname} warns {_fmt(cnt)} times depending on its path")
+                    out.append(n)
+    return out
+
+
+def _unreferenced_edges(fi: FunctionInfo, loop: ast.For, var: str) -> list:
+    """CFG edges inside ``loop`` on which ``var['backrefs']`` is known to be empty."""
+    edges = []
+    for n in ast.walk(loop):
+        if not isinstance(n, ast.If):
+            continue
+        for edge in ("T", "F"):
+            for atom, pol in facts(n.test, edge == "T"):
+                core = _deref(fi, atom) if isinstance(atom, ast.Name) else atom
+                while isinstance(core, ast.UnaryOp) and isinstance(core.op, ast.Not):
+                    core, pol = core.operand, not pol
+                if isinstance(core, ast.Call) and dotted(core.func) in ("len", "bool") and len(core.args) == 1:
+                    core = core.args[0]
+                if _sub_of(core, var, "backrefs") and not pol:
+                    edges.append((edge, n))
+    return edges
+
+
+@rule("C11.R11")
+def r11_unreferenced_reported_once(corpus: Corpus, rep: Report, tier: str):
+    _use(corpus)
+    rep.rule("C11.R11", "UnreferencedFootnotesDetector: every definition of document.footnotes/autofootnotes without back-references yields exactly one [ref.footnote] warning (direct, or through a collection that keeps one entry per footnote)")
+    fi = corpus.func(f"{TRANS}:UnreferencedFootnotesDetector.apply")
+    rep.saw_function(fi.fq)
+    cfg = get_cfg(fi)
+    covered: dict[str, ast.For] = {}
+    n_loops = 0
+    for loop in sorted([n for n in fi.local_nodes() if isinstance(n, ast.For)], key=lambda n: n.lineno):
+        it = loop.iter
+        filt_ifs: list[ast.expr] = []
+        cvar = None
+        if isinstance(it, (ast.ListComp, ast.GeneratorExp)) and len(it.generators) == 1 and isinstance(it.generators[0].target, ast.Name) and _is_name(it.elt, it.generators[0].target.id):
+            filt_ifs, cvar, it = it.generators[0].ifs, it.generators[0].target.id, it.generators[0].iter
+        regs = {x.attr for x in ast.walk(it) if isinstance(x, ast.Attribute) and _doc_attr(x, x.attr)} & FOOTNOTE_REGISTRIES
+        if not regs:
+            continue
+        if not isinstance(loop.target, ast.Name):
+            raise Unsupported(f"{fi.module.site(loop)}: registry loop with a structured target")
+        n_loops += 1
+        var = loop.target.id
+        site = fi.module.site(loop)
+        for r_ in regs:
+            covered.setdefault(r_, loop)
+        tag = "+".join(sorted(regs))
+        ev = Events(fi)
+        for c in _emissions_in(fi, loop):
+            ev.add("report", c)
+        # deferred reporting: entries put into a local collection inside the loop
+        collections: dict[str, list[ast.AST]] = {}
+        for n in ast.walk(loop):
+            cname, keyx, valx = None, None, None
+            if isinstance(n, ast.Call) and isinstance(n.func, ast.Attribute) and isinstance(n.func.value, ast.Name) and n.func.attr in ("append", "add", "setdefault") and n.args:
+                cname = n.func.value.id
+                if n.func.attr == "setdefault":
+                    keyx, valx = n.args[0], (n.args[1] if len(n.args) > 1 else None)
+                elif n.func.attr == "add":
+                    keyx, valx = n.args[0], n.args[0]
+                else:
+                    valx = n.args[0]
+            elif isinstance(n, ast.Assign) and len(n.targets) == 1 and isinstance(n.targets[0], ast.Subscript) and isinstance(n.targets[0].value, ast.Name) and n.targets[0].value.id != var:
+                cname, keyx, valx = n.targets[0].value.id, n.targets[0].slice, n.value
+            if cname is None or valx is None or cname == var:
+                continue
+            init = _single_assign(fi, cname)
+            if not (isinstance(init, (ast.List, ast.Dict, ast.Set)) or (isinstance(init, ast.Call) and dotted(init.func) in ("list", "dict", "set") and not init.args)):
+                continue
+            if not any(_is_name(x, var) for x in ast.walk(valx)) and not (keyx is not None and any(_is_name(x, var) for x in ast.walk(keyx))):
+                continue
+            collections.setdefault(cname, []).append(n)
+            ev.add("report", n)
+            if keyx is not None:
+                ident = _identifies(fi, keyx, var)
+                key = f"{fi.fq}|{tag}|entries of `{cname}` are one per footnote"
+                if ident is None:
+                    raise Unsupported(f"{fi.module.site(n)}: cannot tell whether `{short(keyx, 50)}` is unique per footnote")
+                if ident:
+                    rep.ok("C11.R11", key, fi.module.site(n), short(keyx, 50))
+                else:
+                    rep.violation("C11.R11", key, fi.module.site(n), f"unreferenced footnotes are collected in `{cname}` under the key `{short(keyx, 60)}`, which several footnotes share: they overwrite each other and only one of them is reported, the others yield no warning")
+        for cname, stores in collections.items():
+            consumers = [n for n in fi.local_nodes() if isinstance(n, ast.For) and n is not loop and any(_is_name(x, cname) for x in ast.walk(n.iter)) and not any(a is n for s_ in stores for a in ancestors(s_))]
+            key = f"{fi.fq}|{tag}|collected entries of `{cname}` are reported once each"
+            if not consumers:
+                rep.violation("C11.R11", key, site, f"unreferenced footnotes are collected in `{cname}` but no loop reports them")
+                continue
+            for cl in consumers:
+                cev = Events(fi)
+                for c in _emissions_in(fi, cl):
+                    cev.add("report", c)
+                per = set(cfg.counts(("T", cl), [cl], cev._weight("report")).get(cl, set()))
+                slc = any(isinstance(x, ast.Subscript) and isinstance(x.slice, ast.Slice) for x in ast.walk(cl.iter))
+                if per == {1} and not slc and cl in cfg.reachable_from(loop):
+                    rep.ok("C11.R11", key, fi.module.site(cl))
+                else:
+                    rep.violation("C11.R11", key, fi.module.site(cl), f"the loop over `{cname}` issues {_fmt(per)} warning(s) per collected footnote" + (" and only looks at a slice of the collection" if slc else "") + "; required exactly one")
+        # where is the footnote known to be unreferenced?
+        in_filter = any(_sub_of(x, cvar, "backrefs") for f_ in filt_ifs for x in ast.walk(f_)) if cvar else False
+        edges = _unreferenced_edges(fi, loop, var)
+        key_u = f"{fi.fq}|{tag}|an unreferenced definition is reported exactly once"
+        key_r = f"{fi.fq}|{tag}|a referenced definition is not reported"
+        t_edge = ("T", loop)
+        stops = [n for n in ast.walk(loop) if isinstance(n, (ast.Break, ast.Return)) and n in cfg.succ]
+        if in_filter and not edges:
+            got = ev.paths("report", t_edge, loop)
+            esc = [b for b in stops if b in cfg.reachable_from(t_edge)]
+        elif edges:
+            got = ev.paths("report", t_edge, loop, must=edges)
+            esc = [b for b in stops if any(b in cfg.reachable_from(e) for e in edges)]
+            ref = ev.paths("report", t_edge, loop, avoid=edges)
+            if ref <= {0}:
+                rep.ok("C11.R11", key_r, site)
+            else:
+                rep.violation("C11.R11", key_r, site, f"a footnote of document.{tag} that has back-references is reported {_fmt(ref)} time(s) as unreferenced")
+        else:
+            got = ev.paths("report", t_edge, loop)
+            esc = []
+            if 1 in got or 2 in got:
+                rep.violation("C11.R11", key_r, site, f"the loop over document.{tag} reports footnotes without testing their back-references")
+                continue
+        if esc:
+            rep.violation("C11.R11", key_u, fi.module.site(esc[0]), f"the loop over document.{tag} is left (`{short(esc[0], 20)}`) once an unreferenced footnote was seen: the unreferenced definitions after it yield no warning")
+        elif got == {1}:
+            rep.ok("C11.R11", key_u, site)
+        elif got <= {0, 1} and 1 in got:
+            # further conditions on the unreferenced path: only the footnote's own name state may suppress the report
+            extra = []
+            for r_ in ev.nodes("report"):
+                for t, _pol in cfg.guards(cfg.stmt_of(r_)):
+                    if not any(_sub_of(x, var, k_) for x in ast.walk(t) for k_ in ("backrefs", "names", "dupnames")) and any(a is loop for a in ancestors(t)):
+                        extra.append(t)
+            if extra:
+                rep.violation("C11.R11", key_u, site, f"whether an unreferenced footnote of document.{tag} is reported also depends on `{short(extra[0], 60)}`: some unreferenced definitions yield no warning")
+            else:
+                rep.ok("C11.R11", key_u, site, "except definitions whose name was moved to dupnames (reported by docutils)")
+        else:
+            rep.violation("C11.R11", key_u, site, f"an unreferenced footnote of document.{tag} is reported {_fmt(got)} time(s); required exactly once")
+        # the warning type
+        for c in [c for c in ev.nodes("report") if isinstance(c, ast.Call) and (dotted(c.func) or "").rsplit(".", 1)[-1] == "create_warning"]:
+            wt, sub = kwarg(c, "wtype"), arg_or_kw(c, 1 if isinstance(c.func, ast.Attribute) else 2, "subtype")
+            if not (isinstance(wt, ast.Constant) and wt.value == "ref" and isinstance(sub, ast.Constant) and sub.value == "footnote"):
+                rep.violation("C11.R11", f"{fi.fq}|{tag}|warning type", fi.module.site(c), "the unreferenced-footnote warning is not typed ref.footnote")
+    for reg, kind in (("footnotes", "manually numbered"), ("autofootnotes", "auto-numbered")):
+        key = f"{fi.fq}|examines document.{reg}"
+        if reg in covered:
+            rep.ok("C11.R11", key, fi.module.site(covered[reg]))
+        else:
+            if not n_loops:
+                raise Unsupported("UnreferencedFootnotesDetector.apply has no loop over a footnote registry")
+            rep.violation("C11.R11", key, fi.site(), f"no loop examines document.{reg}: unreferenced {kind} definitions yield no warning")
+    rep.expect_min("C11.R11", 4, "2 registries examined + at least 2 per-loop obligations (8 on the current tree)")
+
+
 RULES = [
     r1_priorities_and_registration,
     r2_predicate_and_registries,
@@ -1888,6 +2097,7 @@ RULES = [
     r8_total_order_key,
     r9_transition_placement,
     r10_first_reference_order,
+    r11_unreferenced_reported_once,
 ]
 
 
@@ -2132,6 +2342,48 @@ def mutants(corpus: Corpus):
     if loop is not None:
         li = " " * loop.col_offset
         add("c11-collector-returns-early-without-transition", "C11.R4", tm, loop, f"if not self.document.settings.myst_footnote_transition:\n{li}    return\n{li}{_seg(tm, loop)}", "move loop|guard")
+    # ---- R11: the unreferenced-footnote detector (class of seed2 out-c11/3: reports collapse / stop early)
+    det = tm.functions.get("UnreferencedFootnotesDetector.apply")
+    if det is None:
+        out.append(("c11-unreferenced-collapsed-by-message", "UnreferencedFootnotesDetector.apply not found"))
+    else:
+        dloops = sorted([n for n in det.local_nodes() if isinstance(n, ast.For) and any(_doc_attr(x, r_) for x in ast.walk(n.iter) for r_ in FOOTNOTE_REGISTRIES)], key=lambda n: n.lineno)
+        warns = []
+        for dl in dloops:
+            w_ = next((x for x in ast.walk(dl) if isinstance(x, ast.Expr) and isinstance(x.value, ast.Call) and (dotted(x.value.func) or "").endswith("create_warning")), None)
+            if w_ is not None and len(w_.value.args) >= 2 and isinstance(dl.target, ast.Name):
+                warns.append((dl, w_))
+        auto = next(((dl, w_) for dl, w_ in warns if any(_doc_attr(x, "autofootnotes") for x in ast.walk(dl.iter))), None)
+        if warns and auto is not None:
+            # collapse: gather in a dict keyed by the message, report afterwards (edits applied bottom-up)
+            src = tm.src
+            last = warns[-1][0]
+            ind = " " * dloops[0].col_offset
+            tail = f"\n{ind}for _message, _node in _unreferenced.items():\n{ind}    create_warning(self.document, _message, wtype=\"ref\", subtype=\"footnote\", node=_node)"
+            src = splice(src, last, _seg(tm, last) + tail)
+            for dl, w_ in reversed(warns):
+                src = splice(src, w_, f"_unreferenced[{_seg(tm, w_.value.args[1])}] = {dl.target.id}") if dl is not last else src
+            # the last loop was already re-emitted with its tail: redo its statement inside the new text
+            seg_last = _seg(tm, last)
+            w_last = warns[-1][1]
+            src = src.replace(seg_last, seg_last.replace(_seg(tm, w_last), f"_unreferenced[{_seg(tm, w_last.value.args[1])}] = {last.target.id}"), 1)
+            first = dloops[0]
+            lines = src.splitlines(keepends=True)
+            src = "".join(lines[: first.lineno - 1]) + f"{ind}_unreferenced = {{}}\n" + "".join(lines[first.lineno - 1 :])
+            out.append(Mutant("c11-unreferenced-collapsed-by-message", "C11.R11", tm.rel, src, expect="are one per footnote"))
+            dl, w_ = auto
+            wi = " " * w_.col_offset
+            add("c11-unreferenced-only-first-reported", "C11.R11", tm, w_, _seg(tm, w_) + f"\n{wi}break", "reported exactly once")
+            src = splice(tm.src, w_, f"if \"auto\" not in _seen:\n{wi}    _seen.add(\"auto\")\n{wi}    " + _seg(tm, w_).replace("\n", "\n    "))
+            lines = src.splitlines(keepends=True)
+            src = "".join(lines[: dl.lineno - 1]) + f"{ind}_seen = set()\n" + "".join(lines[dl.lineno - 1 :])
+            out.append(Mutant("c11-unreferenced-deduplicated-by-kind", "C11.R11", tm.rel, src, expect="reported exactly once"))
+            reg = next((x for x in ast.walk(dl.iter) if _doc_attr(x, "autofootnotes")), None)
+            add("c11-unreferenced-auto-registry-not-examined", "C11.R11", tm, reg, f"{unparse(reg.value)}.footnotes" if reg is not None else "", "examines document.autofootnotes")
+            tst = next((x for x in ast.walk(dl) if isinstance(x, ast.UnaryOp) and isinstance(x.op, ast.Not) and _sub_of(x.operand, dl.target.id, "backrefs")), None)
+            add("c11-unreferenced-test-inverted", "C11.R11", tm, tst, _seg(tm, tst.operand) if tst is not None else "", "autofootnotes|")
+        else:
+            out.append(("c11-unreferenced-collapsed-by-message", "registry loops with a create_warning statement not found"))
     # ---- R8
     ck = tm.functions.get("CollectFootnotes.apply._sort_key")
     if ck is not None:
